@@ -58,6 +58,31 @@ def register(M):
         return M.some(dty, Ref(cell, path + (('slot', i),)))
     M.assoc_get = assoc_get
 
+    @reg('HashSet::new', 'HashSet::default', 'HashSet::with_capacity')
+    def _(ex, info, a, dty):
+        g = generic_args(dty or '')
+        return Obj('assoc', kty=g[0] if g else '?', vty='()', entries=())
+
+    @reg('HashSet::insert')
+    def _(ex, info, a, dty):
+        cell, path = ex.deref(a[0])
+        m = as_assoc(ex, ex.read_path(cell, path))
+        if find(ex, m, a[1]) is not None:
+            return z3.BoolVal(False)
+        ex.write_path(cell, path, m.set(entries=m.entries + ((a[1], UNIT),)))
+        return z3.BoolVal(True)
+
+    @reg('HashSet::contains')
+    def _(ex, info, a, dty):
+        cell, path = ex.deref(a[0])
+        m = as_assoc(ex, ex.read_path(cell, path))
+        return z3.BoolVal(find(ex, m, M.load(ex, a[1]) if isinstance(ex.materialize(a[1]), Ref) else a[1]) is not None)
+
+    @reg('HashSet::len')
+    def _(ex, info, a, dty):
+        cell, path = ex.deref(a[0])
+        return bv(len(as_assoc(ex, ex.read_path(cell, path)).entries))
+
     def assoc_insert(ex, cell, path, m, key, val, dty):
         i = find(ex, m, key)
         if i is None:
@@ -102,29 +127,92 @@ def register(M):
 
     @reg('HashMap::entry')
     def _(ex, info, a, dty):
+        # std's `Entry` enum: Occupied(OccupiedEntry) = 0 / Vacant(VacantEntry) = 1, so that code matching on it runs as is
         cell, path, m = M._map_at(ex, a[0])
-        if m.kind != 'assoc':
-            raise Inconclusive('entry() on a symbolic map')
-        i = find(ex, m, a[1])
-        return Obj('entry', cell=cell, path=path, key=a[1], idx=i)
+        if m.kind == 'assoc':
+            i = find(ex, m, a[1])
+            e = Obj('entry', cell=cell, path=path, key=a[1], idx=i, sym=None)
+            return Adt(dty or 'Entry<K, V>', {(0, 0): e, (1, 0): e}, bv(0 if i is not None else 1), None)
+        k = M.key_term(ex, a[1], m.ksh)
+        ex.write_path(cell, path, m)
+        e = Obj('entry', cell=cell, path=path, key=a[1], idx=None, sym=k)
+        return Adt(dty or 'Entry<K, V>', {(0, 0): e, (1, 0): e}, z3.simplify(z3.If(z3.Select(m.present, k), bv(0), bv(1))), None)
+
+    def entry_of(ex, v):
+        v = ex.materialize(v)
+        if isinstance(v, Ref):
+            v = ex.materialize(ex.read_path(v.cell, v.path))
+        if isinstance(v, Obj) and v.kind == 'entry':
+            return v, None
+        if isinstance(v, Adt) and (0, 0) in v.fields and isinstance(v.fields[(0, 0)], Obj) and v.fields[(0, 0)].kind == 'entry':
+            return v.fields[(0, 0)], v
+        raise Inconclusive('Entry method on %r' % (v,))
+
+    def entry_insert(ex, e, val):
+        """the key is absent: put (key, val) in; -> slot reference"""
+        m = ex.read_path(e.cell, e.path)
+        if e.sym is None:
+            i = len(m.entries)
+            ex.write_path(e.cell, e.path, m.set(entries=m.entries + ((e.key, val),)))
+            return Ref(e.cell, e.path + (('slot', i),))
+        vals = M.flatten(ex, val, m.vsh)
+        ex.write_path(e.cell, e.path, m.set(present=z3.Store(m.present, e.sym, z3.BoolVal(True)), leaves=tuple(z3.Store(x, e.sym, y) for x, y in zip(m.leaves, vals))))
+        return Ref(e.cell, e.path + (('slot', e.sym),))
+
+    def entry_slot(e):
+        return Ref(e.cell, e.path + (('slot', e.idx if e.sym is None else e.sym),))
 
     @reg('Entry::or_default', 'Entry::or_insert_with', 'Entry::or_insert')
     def _(ex, info, a, dty):
-        e = a[0]
-        if not (isinstance(e, Obj) and e.kind == 'entry'):
-            raise Inconclusive('Entry method on %r' % (e,))
+        e, wrap = entry_of(ex, a[0])
         m = ex.read_path(e.cell, e.path)
-        i = e.idx
-        if i is None:
-            if info['method'] == 'or_default':
-                v = M.default_value(ex, m.vty)
-            elif info['method'] == 'or_insert':
-                v = a[1]
-            else:
-                v = ex.call_value(a[1], [])
-            i = len(m.entries)
-            ex.write_path(e.cell, e.path, m.set(entries=m.entries + ((e.key, v),)))
-        return Ref(e.cell, e.path + (('slot', i),))
+        occupied = (e.idx is not None) if e.sym is None else ex.branch(M.discr(ex, wrap) == bv(0))
+        if occupied:
+            return entry_slot(e)
+        if info['method'] == 'or_default':
+            v = M.default_value(ex, m.vty)
+        elif info['method'] == 'or_insert':
+            v = a[1]
+        else:
+            v = ex.call_value(a[1], [])
+        return entry_insert(ex, e, v)
+
+    @reg('OccupiedEntry::get', 'OccupiedEntry::get_mut', 'OccupiedEntry::into_mut')
+    def _(ex, info, a, dty):
+        e, _w = entry_of(ex, a[0])
+        return entry_slot(e)
+
+    @reg('OccupiedEntry::remove', 'OccupiedEntry::remove_entry')
+    def _(ex, info, a, dty):
+        e, _w = entry_of(ex, a[0])
+        m = ex.read_path(e.cell, e.path)
+        if e.sym is None:
+            old = m.entries[e.idx][1]
+            ex.write_path(e.cell, e.path, m.set(entries=m.entries[:e.idx] + m.entries[e.idx + 1:]))
+        else:
+            old = M.unflatten(ex, iter([z3.Select(x, e.sym) for x in m.leaves]), m.vsh, 'old')
+            ex.write_path(e.cell, e.path, m.set(present=z3.Store(m.present, e.sym, z3.BoolVal(False))))
+        if info['method'] == 'remove_entry':
+            return Adt(dty or '(K, V)', {(None, 0): e.key, (None, 1): old})
+        return old
+
+    @reg('OccupiedEntry::insert')
+    def _(ex, info, a, dty):
+        e, _w = entry_of(ex, a[0])
+        slot = entry_slot(e)
+        old = ex.read_path(slot.cell, slot.path)
+        ex.write_path(slot.cell, slot.path, a[1])
+        return old
+
+    @reg('VacantEntry::insert')
+    def _(ex, info, a, dty):
+        e, _w = entry_of(ex, a[0])
+        return entry_insert(ex, e, a[1])
+
+    @reg('OccupiedEntry::key', 'VacantEntry::key', 'Entry::key')
+    def _(ex, info, a, dty):
+        e, _w = entry_of(ex, a[0])
+        return Ref(Cell(e.key), ())
 
     def orders_of(ex, m):
         return list(range(len(m.entries))) if m.d.get('linked') else orders(ex, len(m.entries))
